@@ -75,7 +75,7 @@ const (
 	alphaHostile        // bullets, leading/trailing blanks, quotes, '#', ':' (still no newline, non-empty)
 )
 
-var namesPlain = []string{"a", "b", "c", "d", "e", "f", "dir", "src", "main.go", "x.txt", "Makefile", "README.md", "lib", "t.go"}
+var namesPlain = []string{"a", "b", "c", "d", "e", "f", "dir", "src", "main.go", "x.txt", "Makefile", "README.md", "lib", "t.go", "x.gz", "a.tar.gz", "profile", "cmd", "cmd.go"}
 var namesFS = []string{"a", "b", "c", "日本", "é", "x y", "ü.txt", "🌲", "a.b.c", "Ω", "src", "main.go", "k", "Makefile",
 	"A", "É", "Main.go", " lead", "100%", "%s", "50%off.txt", "a b  c", "-dash", "~tilde", "@at", "x.TXT", "trail ", "dot.", "UPPER.GO", "target", "j"}
 var namesHostile = []string{"a", "b", "a-b", "* x", " lead", "trail ", "x#y", "a:b", `q"uote`, `back\slash`, "- dash", "+p", "é", "{}", "[k]", "a  b", "c"}
@@ -108,7 +108,7 @@ func genTree(c *Ctx, rootName string, o forestOpts) *MNode {
 		// unusual shapes: a deep chain or a wide fan
 		if c.Draw(2) == 0 {
 			n := root
-			for i := 0; i < 8+c.Draw(24); i++ {
+			for i := 0; i < 8+c.Draw(90); i++ {
 				k := &MNode{Name: genName(c, o.alpha)}
 				n.Kids = []*MNode{k}
 				n = k
